@@ -126,6 +126,9 @@ FIT_INJ = {
     "fit_descriptions_too_short": (lambda i, n: i == 0 and n >= 2, lambda data, fd, i, n: (data, fd[:-1])),
     "fit_descriptions_too_long": (lambda i, n: i == 0, lambda data, fd, i, n: (data, fd + [None])),
     "fit_description_without_method": (lambda i, n: True, lambda data, fd, i, n: (data, fd[:i] + [{"weights": None}] + fd[i + 1:])),
+    # falsy non-None fit descriptions have no "method" either (an "if not desc" test would take them for None)
+    **{f"fit_description_falsy_{type(v).__name__}": (lambda i, n: True, (lambda data, fd, i, n, v=v: (data, fd[:i] + [v] + fd[i + 1:])))
+       for v in ({}, [], "", 0, False)},
     "unknown_fit_method": (lambda i, n: True, lambda data, fd, i, n: (data, fd[:i] + [{"method": "least_absolute"}] + fd[i + 1:])),
     # near misses of the valid names (prefixes, substrings, the empty string, trailing characters)
     **{f"unknown_fit_method_{nm!r}": (lambda i, n: True, (lambda data, fd, i, n, nm=nm: (data, fd[:i] + [{"method": nm}] + fd[i + 1:])))
